@@ -135,6 +135,12 @@ def eval_loadpaths(names):
                 variants['pickle-gettz'] = pickle.loads(pickle.dumps(variants['gettz']))
             except Exception as e:
                 viols.append({'kind': 'pickle-exception', 'zone': name, 'protocol': 'gettz', 'error': repr(e)[:120]})
+        for proto in (2, 5):
+            try:
+                variants['pickle%d-archive' % proto] = pickle.loads(pickle.dumps(zi.get(name), proto))
+            except Exception as e:
+                viols.append({'kind': 'pickle-exception', 'zone': name, 'protocol': 'archive-%d' % proto, 'error': repr(e)[:120]})
+        variants['copy-archive'] = copy.copy(zi.get(name))
         variants['copy'] = copy.copy(base)
         variants['deepcopy'] = copy.deepcopy(base)
         probes = tzwalk.utc_probes(zone, [-3600, -1, 0, 1, 3600])
